@@ -249,6 +249,7 @@ pub fn check(prop: &str, tier: &str) -> i32 {
     let mut seen: HashMap<u128, u32> = HashMap::new();
     let plan = [(Kind::Encaps, n_enc), (Kind::Encrypt, n_ctx), (Kind::Keygen, n_key), (Kind::Rekey, n_rekey), (Kind::Header, n_rekey), (Kind::Encaps, n_rekey)];
     let mut call_no = 0u32;
+    let mut ad_cases = 0u64;
     'outer: for (kind, n) in plan {
         for i in 0..n {
             call_no += 1;
@@ -275,6 +276,26 @@ pub fn check(prop: &str, tier: &str) -> i32 {
             }
         }
     }
+    // C16.e over every one-byte authentication data (and absent / empty / longer): whatever the
+    // authentication data, the returned secret must not decrypt the metadata
+    {
+        let cc = Covercrypt::default();
+        let mpk = cosmian_cover_crypt::MasterPublicKey::deserialize(&base_mpk).unwrap();
+        let ap = AccessPolicy::parse("A::x").unwrap();
+        let mut ads: Vec<Option<Vec<u8>>> = vec![None, Some(vec![]), Some(b"ad".to_vec()), Some(vec![0, 0]), Some(vec![1, 0]), Some(vec![0, 1]), Some(b"Covercrypt AE key".to_vec())];
+        ads.extend((0..=255u8).map(|b| Some(vec![b])));
+        for ad in &ads {
+            let Ok((secret, hdr)) = EncryptedHeader::generate(&cc, &mpk, &ap, Some(b"metadata"), ad.as_deref()) else { continue };
+            ad_cases += 1;
+            let Some(md) = hdr.encrypted_metadata.clone() else { continue };
+            let key = SymmetricKey::<KL>::try_from_bytes(secret.to_vec().try_into().unwrap()).unwrap();
+            let nonce = Nonce::try_from_slice(&md[..12]).unwrap();
+            if Aes256Gcm::new(&key).decrypt(&nonce, &md[12..], ad.as_deref()).is_ok() {
+                run.report(None, "C16.e", &format!("with authentication data {ad:?} the encrypted metadata decrypts under the secret handed to the caller"), json!({"engine": "seqfresh-ad", "ad": format!("{ad:?}")}));
+                break;
+            }
+        }
+    }
     // ownership self-test (hook H2): the generator is the only entropy source
     let seeded = |seed: u8| -> Vec<u8> {
         let cc = Covercrypt::verif_from_seed([seed; 32]);
@@ -297,6 +318,7 @@ pub fn check(prop: &str, tier: &str) -> i32 {
     run.set("fields_compared", json!(fields + long_fields));
     run.set("fields_by_kind", json!(kinds));
     run.set("long_path_calls", json!(call_no));
+    run.set("authentication_data_values_for_key_separation", json!(ad_cases));
     run.set("exhaustive", json!(true));
     run.sample(json!({"sequence": "Encaps@1; Encaps@1; Encaps@2"}));
     run.sample(json!({"sequence": "Rekey@1; Header@2; Keygen@1"}));
@@ -305,5 +327,7 @@ pub fn check(prop: &str, tier: &str) -> i32 {
     if fields == 0 {
         machinery("seqfresh driver is vacuous");
     }
+    // across threads: every interleaving of small concurrent scenarios on one shared instance
+    crate::sched::freshness_part(&mut run);
     run.finish()
 }
